@@ -18,7 +18,7 @@ from __future__ import annotations
 
 import z3
 
-from pyvc import netmodel
+from pyvc import netmodel, lib_np
 from pyvc.values import SV, PV, Opaque, to_pv, B, EngineError
 from pyvc.containers import PDict
 from pyvc.interp import Native, PyRaise
@@ -35,8 +35,7 @@ KW_KEYS = ["trafo3w_losses", "v_debug", "delta_q", "switch_rx_ratio", "numba", "
 
 def configure(it):
     netmodel.install(it)
-    it.stub_modules["numpy"] = Opaque("np")
-    it.stub_modules["pandas"] = Opaque("pd")
+    lib_np.install(it)
 
     F_ret = z3.Function("ls2g_ret", PV, PV, PV, PV, PV, PV)
     F_raise = z3.Function("ls2g_raises", PV, PV, PV, PV, PV, B)
